@@ -121,6 +121,12 @@ class C10(props.Prop):
                     'beh': ['normal', rng.choice([2.0, 4.0, 11.0])]}
             if rng.random() < 0.4:
                 spec['opts'] += ['--timeout-cc', str(rng.choice([0.5, 1.0, 2.5]))]
+            if rng.random() < 0.25:
+                # a match string for the cross-check command (its golden run
+                # may be cut off by --timeout-cc and have no output at all)
+                spec['opts'] += [rng.choice(['--match-out-cc',
+                                             '--match-err-cc']),
+                                 rng.choice(['bug', 'sat', 'error', 'a'])]
             if rng.random() < 0.4:
                 spec['opts'].append('--ignore-output-cc')
         spec['prlimit'] = rng.random() < 0.7
@@ -185,7 +191,14 @@ class C10(props.Prop):
                         'status': res.status, 'outcome': res.outcome}
             return v
         if res.outcome == 'exception':
-            v.aborted = 'exception'
+            # no fault is injected into ddSMT itself here: whatever the
+            # commands did (hang, die, exceed a limit - on the golden runs
+            # too), ddSMT has to go on or stop with a diagnostic
+            v.violate('crash', f'C10:crash:{type(res.exc).__name__}',
+                      f'{type(res.exc).__name__} left main() in a run whose '
+                      f'commands exceed their limits: {str(res.exc)[:120]}',
+                      traceback=res.exc_tb[-800:], opts=spec['opts'])
+            v.nontrivial = True
             return v
         # (a) verdicts
         nfault = 0
